@@ -166,7 +166,7 @@ func ndpOption(rng *lib.Rand) []byte {
 	case 3:
 		b := rng.Bytes(32)
 		b[0], b[1] = 3, 4
-		b[2] = byte(rng.Intn(129))
+		b[2] = byte(pick(rng, 0, 48, 64, 64, 96, 128, 129, 200, rng.Intn(129)))
 		return b
 	case 4:
 		l := pick(rng, 1, 2, 3)
@@ -180,11 +180,35 @@ func ndpOption(rng *lib.Rand) []byte {
 		b := rng.Bytes(8 * l)
 		b[0], b[1] = 25, byte(l)
 		return b
-	case 6:
-		b := []byte{31, 2, 0, 0, 0, 0, 0, 60, 3, 'l', 'a', 'n', 0, 0, 0, 0}
-		if rng.Chance(30) {
-			copy(b[8:], rng.Bytes(8))
+	case 6: // DNSSL (RFC 8106 5.2): lifetime, domain names as label sequences, zero padded
+		var v []byte
+		label := func() { // no label starts with "xn--": puny.ToUnicode is the identity on those (trusted base)
+			n := 1 + rng.Intn(5)
+			v = append(v, byte(n))
+			for i := 0; i < n; i++ {
+				v = append(v, byte('a'+rng.Intn(20)))
+			}
 		}
+		for d := 1 + rng.Intn(2); d > 0; d-- {
+			for k := 1 + rng.Intn(3); k > 0; k-- {
+				label()
+			}
+			v = append(v, 0)
+		}
+		switch rng.Intn(8) {
+		case 0: // a label with a dot or a space, or a non-ASCII byte
+			v[1] = byte(pick(rng, '.', ' ', 0x80, 0xff))
+		case 1: // label length past the end
+			v[0] = byte(len(v) + rng.Intn(5))
+		case 2: // no domain at all
+			v = []byte{0}
+		}
+		b := append([]byte{31, 0, 0, 0}, rng.Bytes(4)...)
+		b = append(b, v...)
+		for len(b)%8 != 0 {
+			b = append(b, 0)
+		}
+		b[1] = byte(len(b) / 8)
 		return b
 	case 7: // unknown type
 		l := pick(rng, 1, 1, 2)
